@@ -639,6 +639,7 @@ public:
 
 	TryResult TryUpdate(size_t rowNumber, Row&& row)
 	{
+		MOMO_CHECK(&row.GetColumnList() == &GetColumnList());
 		MOMO_CHECK(rowNumber < GetCount());
 		Raw*& raw = mRaws[rowNumber];
 		auto res = mIndexes.UpdateRaw(raw, row.GetRaw());
